@@ -34,8 +34,18 @@ from .seams import reset_library
 
 
 def fresh(h):
+    """Fresh world.  The fixture uses the library too (it builds models, agents, components): an exception raised while
+    it is being built is a behaviour of the code under test and is reported as a violation, not as a harness failure."""
     reset_library()
-    return h.fresh()
+    try:
+        return h.fresh()
+    except (Violation, HarnessError):
+        raise
+    except Exception as e:      # noqa
+        tb = traceback.extract_tb(e.__traceback__)
+        where = [f'{fr.filename.rsplit("/", 1)[-1]}:{fr.lineno}:{fr.name}' for fr in tb[-3:]]
+        raise Violation(f'unexpected {type(e).__name__} while the initial objects were being built: {e}',
+                        expected='no exception', observed={'exception': type(e).__name__, 'where': where})
 
 
 def digest(k):
@@ -198,8 +208,8 @@ def explore(ctx, h, leg, max_depth, dedup=True, max_states=DEFAULT_STATE_CAP, ca
         c['history'] = list(hist)
         return c
 
-    w0 = fresh(h)
     try:
+        w0 = fresh(h)
         _guard(h.check, w0)
     except Violation as v:
         ctx.report(case([]), v)
